@@ -1,73 +1,10 @@
-mod construct;
-#[cfg(feature = "with-co")]
-mod costream;
-#[cfg(not(feature = "with-co"))]
-mod costream {
-    //! the concurrent-stream engine lives in the `with-co` binary
-    #[derive(Default)]
-    pub struct CoLog {}
-}
-mod crash;
-mod driver;
-mod engine_comb;
-mod exec;
-mod gen;
-#[cfg(feature = "has-alloc")]
-mod groups;
-#[cfg(not(feature = "has-alloc"))]
-mod groups {
-    //! no groups without an allocator: only the interface the executor names
-    use crate::val::Val;
-    use std::task::{Context, Poll};
-    pub trait GroupDyn {
-        fn poll_next(&mut self, cx: &mut Context<'_>) -> Poll<Option<Val>>;
-        fn after_poll(&mut self);
-    }
-}
-mod nodes;
-mod oracle;
-mod props;
-mod regress;
-mod spec;
-mod val;
-mod world;
+use fcv::driver::{self, Engine};
+use fcv::props::Tier;
+use fcv::{crash, engine_for, regress};
 
-use driver::Engine;
-use props::Tier;
-use std::sync::Arc;
 
 fn arg(args: &[String], name: &str) -> Option<String> {
     args.iter().position(|a| a == name).and_then(|i| args.get(i + 1).cloned())
-}
-
-fn engine_for(prop: &str, tier: Tier) -> Option<(Arc<dyn Engine>, &'static str, u64, usize, &'static str)> {
-    // the concurrent-stream binary: C13-C15 and the co share of C02 / C03
-    #[cfg(feature = "with-co")]
-    {
-        if let Some(p) = props::co_prop(prop) {
-            let e = costream::CoEngine { prop: p.id, profile: (p.profile)(tier) };
-            return Some((Arc::new(e), p.rule, (p.cases)(tier), (p.max_len)(tier), p.id));
-        }
-        if prop == "C02" || prop == "C03" {
-            let p = props::comb_prop(prop).unwrap();
-            let profile = if p.id == "C02" { props::cp02(tier) } else { props::cp03(tier) };
-            let e = costream::CoEngine { prop: p.id, profile };
-            return Some((Arc::new(e), p.rule, (p.cases)(tier) / 6, 420, p.id));
-        }
-        return None;
-    }
-    #[cfg(not(feature = "with-co"))]
-    if let Some(p) = props::comb_prop(prop) {
-        let e = engine_comb::CombEngine::new(p, tier);
-        return Some((Arc::new(e), p.rule, (p.cases)(tier), (p.max_len)(tier), p.id));
-    }
-    #[cfg(all(feature = "has-alloc", not(feature = "with-co")))]
-    if let Some(p) = props::group_prop(prop) {
-        let e = groups::GroupEngine { gp: (p.profile)(tier), fold_shared: true };
-        return Some((Arc::new(e), p.rule, (p.cases)(tier), (p.max_len)(tier), p.id));
-    }
-    #[cfg(not(feature = "with-co"))]
-    return None;
 }
 
 fn silent_panics() {
@@ -207,6 +144,42 @@ fn main() {
                 std::process::exit(1);
             }
             println!("no violation of {} on this tree", id);
+        }
+        "miri" => {
+            // single-threaded, proptest-free loop for `cargo miri run`: cases
+            // are decoded from a xorshift byte stream; every case is announced
+            // before it runs so that a Miri abort identifies it
+            silent_panics();
+            let prop = arg(&args, "--prop").expect("--prop");
+            let seed: u64 = arg(&args, "--seed").and_then(|s| s.parse().ok()).unwrap_or(1);
+            let count: usize = arg(&args, "--cases").and_then(|s| s.parse().ok()).unwrap_or(100);
+            let Some((engine, _rule, _c, max_len, id)) = engine_for(&prop, Tier::Quick) else {
+                std::process::exit(2);
+            };
+            let max_len = max_len.min(160);
+            let mut x = seed.wrapping_mul(0x9E3779B97F4A7C15) | 1;
+            let mut next = move || {
+                x ^= x << 13;
+                x ^= x >> 7;
+                x ^= x << 17;
+                x
+            };
+            let mut nontrivial = 0usize;
+            for i in 0..count {
+                let len = (next() as usize) % max_len;
+                let bytes: Vec<u8> = (0..len).map(|_| (next() >> 24) as u8).collect();
+                println!("case {} {}", i, driver::hex(&bytes));
+                let ev = engine.eval(&bytes, false);
+                if ev.nontrivial {
+                    nontrivial += 1;
+                }
+                if let Some(v) = ev.violations.iter().find(|v| v.oracle.property() == id) {
+                    println!("VIOLATED {:?}: {}", v.oracle, v.msg);
+                    println!("shown: {}", ev.show);
+                    std::process::exit(1);
+                }
+            }
+            println!("miri-done cases={} nontrivial={}", count, nontrivial);
         }
         "show" => {
             silent_panics();
